@@ -1,9 +1,21 @@
-//! C06 obligations on integer literals and a..b integer ranges.
+//! C06 obligations on integer literals and a..b integer ranges
+//! (engine/src/rhs_types/int.rs).
+//!
+//! `i64::lex` = radix selection (`expect("0x")` / leading 0 / optional `-`)
+//!            + `lex_digits` (maximal run of 0-9a-fA-F)
+//!            + `parse_number` (from_str_radix over exactly that span).
+//! The three parts are checked on their own (boundary literals of 19-22 digits are
+//! only affordable on `parse_number`: inside `i64::lex` every `expect` temporary drags
+//! the dead drop glue of LexErrorKind through 25 unwindings) and `i64::lex` as a whole
+//! on every ASCII string of 1..3 bytes against the reference lexer `ref_int`
+//! (lex/verif_kani/common.rs), with `lex::expect` replaced by its loop-free CONTRACT
+//! stub (discharged on the real `expect` in lex/verif_kani/c07.rs).
 use super::super::*;
 use crate::lex::verif_kani::common::*;
 
-/// K5: every ASCII string of exactly N bytes: `i64::lex` agrees with the
-/// reference on acceptance, value and consumed length.
+// ---------------------------------------------------------------------------
+// K5a: i64::lex on every ASCII string of exactly N bytes
+
 fn int_lex<const N: usize>() {
     let mut buf = [0u8; N];
     let mut i = 0;
@@ -13,83 +25,210 @@ fn int_lex<const N: usize>() {
     }
     let input = ascii_str(&buf, N);
     let want = ref_int(&buf, N);
-    match i64::lex(input) {
+    let r = i64::lex(input);
+    match &r {
         Ok((v, rest)) => {
             assert!(want.is_some(), "malformed integer literal accepted");
             let (wv, wn) = want.unwrap();
-            assert!(v == wv, "integer literal denotes its documented value");
+            assert!(*v == wv, "integer literal denotes its documented value");
             assert!(is_suffix_at(input, rest, wn), "exactly the literal's characters are consumed");
-            kani::cover!(v < 0);
-            kani::cover!(N >= 3 && buf[1] == b'x');
-            kani::cover!(N >= 2 && buf[0] == b'0' && v > 0);
+            kani::cover!(*v < 0, "negative decimal");
+            kani::cover!(N < 3 || buf[1] == b'x', "hex");
+            kani::cover!(N < 2 || (buf[0] == b'0' && *v > 0), "octal or hex");
+            kani::cover!(N == 1 || wn < N, "literal followed by something else");
         }
-        Err(e) => {
+        Err(_) => {
             assert!(want.is_none(), "well-formed integer literal rejected");
-            std::mem::forget(e);
+            kani::cover!(buf[0] == b'0', "malformed octal / hex");
+            kani::cover!(N < 2 || buf[0] == b'-', "malformed negative");
         }
     }
+    std::mem::forget(r);
 }
 
 #[kani::proof]
-#[kani::unwind(5)]
+#[kani::unwind(3)]
+#[kani::stub(crate::lex::expect, crate::lex::verif_kani::common::expect__contract)]
 fn i64_lex__all_ascii_len1() {
     int_lex::<1>()
 }
 
 #[kani::proof]
-#[kani::unwind(6)]
+#[kani::unwind(4)]
+#[kani::stub(crate::lex::expect, crate::lex::verif_kani::common::expect__contract)]
 fn i64_lex__all_ascii_len2() {
     int_lex::<2>()
 }
 
 #[kani::proof]
-#[kani::unwind(7)]
+#[kani::unwind(5)]
+#[kani::stub(crate::lex::expect, crate::lex::verif_kani::common::expect__contract)]
 fn i64_lex__all_ascii_len3() {
     int_lex::<3>()
 }
 
-#[kani::proof]
-#[kani::unwind(8)]
-fn i64_lex__all_ascii_len4() {
-    int_lex::<4>()
+// ---------------------------------------------------------------------------
+// K5b: lex_digits takes the maximal run of 0-9a-fA-F (so that "0779" or "10fe" is
+// one malformed literal, never a shorter literal plus a rest), fails on an empty run.
+
+fn lex_digits_run<const N: usize>() {
+    let mut buf = [0u8; N];
+    let mut i = 0;
+    while i < N {
+        buf[i] = any_ascii();
+        i += 1;
+    }
+    let input = ascii_str(&buf, N);
+    let mut k = 0;
+    while k < N && hex_val(buf[k]).is_some() {
+        k += 1;
+    }
+    let r = lex_digits(input);
+    match &r {
+        Ok((digits, rest)) => {
+            assert!(k > 0, "an empty digit run is not a literal");
+            assert!(is_suffix_at(input, rest, k), "the whole run of digit characters belongs to the literal");
+            assert!(digits.len() == k && std::ptr::eq(digits.as_ptr(), input.as_ptr()), "the span is exactly the run");
+            kani::cover!(k == N, "all digits");
+            kani::cover!(k < N, "run followed by something else");
+        }
+        Err(_) => {
+            assert!(k == 0, "a non-empty digit run is lexed");
+            kani::cover!(true, "no digit");
+        }
+    }
+    std::mem::forget(r);
 }
 
-/// Boundary literals over the full i64 range (concrete inputs: regression
-/// obligations, not a proof over all literals).
+#[kani::proof]
+#[kani::unwind(5)]
+fn lex_digits__maximal_run_len3() {
+    lex_digits_run::<3>()
+}
+
+#[kani::proof]
+#[kani::unwind(6)]
+fn lex_digits__maximal_run_len4() {
+    lex_digits_run::<4>()
+}
+
+// ---------------------------------------------------------------------------
+// K5c: parse_number over the full i64 range (concrete boundary literals:
+// regression obligations) - value, range check, and the rest is passed through.
+
+macro_rules! parses {
+    ($s:literal, $radix:literal, $v:expr) => {{
+        let r = parse_number(($s, ";"), $radix);
+        assert!(matches!(&r, Ok((v, rest)) if *v == $v && rest.len() == 1), "the literal denotes its documented value");
+        kani::cover!(r.is_ok(), "accepted");
+        std::mem::forget(r);
+    }};
+}
+
+macro_rules! out_of_range {
+    ($s:literal, $radix:literal) => {{
+        let r = parse_number(($s, ";"), $radix);
+        assert!(r.is_err(), "out-of-range / malformed numbers are rejected");
+        kani::cover!(r.is_err(), "rejected");
+        std::mem::forget(r);
+    }};
+}
+
+#[kani::proof]
+#[kani::unwind(24)]
+fn parse_number__decimal_boundaries() {
+    parses!("9223372036854775807", 10, i64::MAX);
+    parses!("-9223372036854775808", 10, i64::MIN);
+    parses!("-9223372036854775807", 10, i64::MIN + 1);
+    parses!("0", 10, 0);
+    parses!("-0", 10, 0);
+    parses!("-1", 10, -1);
+    out_of_range!("9223372036854775808", 10);
+    out_of_range!("-9223372036854775809", 10);
+    out_of_range!("10000000000000000000", 10);
+    out_of_range!("-", 10);
+    out_of_range!("10fe", 10);
+}
+
+#[kani::proof]
+#[kani::unwind(24)]
+fn parse_number__hex_boundaries() {
+    parses!("7fffffffffffffff", 16, i64::MAX);
+    parses!("7FFFFFFFFFFFFFFF", 16, i64::MAX);
+    parses!("0", 16, 0);
+    parses!("00ff", 16, 255);
+    parses!("100000000", 16, 4294967296i64);
+    out_of_range!("8000000000000000", 16);
+    out_of_range!("ffffffffffffffff", 16);
+    out_of_range!("10000000000000000", 16);
+}
+
 #[kani::proof]
 #[kani::unwind(26)]
-fn i64_lex__boundary_literals() {
-    let r = i64::lex("9223372036854775807");
-    assert!(matches!(r, Ok((i64::MAX, ""))));
-    std::mem::forget(r);
-    let r = i64::lex("-9223372036854775808");
-    assert!(matches!(r, Ok((i64::MIN, ""))));
-    std::mem::forget(r);
-    let r = i64::lex("9223372036854775808");
-    assert!(r.is_err(), "out-of-range numbers are rejected");
-    std::mem::forget(r);
-    let r = i64::lex("-9223372036854775809");
-    assert!(r.is_err(), "out-of-range numbers are rejected");
-    std::mem::forget(r);
-    let r = i64::lex("0x7fffffffffffffff");
-    assert!(matches!(r, Ok((i64::MAX, ""))));
-    std::mem::forget(r);
-    let r = i64::lex("0x8000000000000000");
-    assert!(r.is_err());
-    std::mem::forget(r);
-    let r = i64::lex("0777777777777777777777");
-    assert!(matches!(r, Ok((i64::MAX, ""))));
-    std::mem::forget(r);
-    let r = i64::lex("01000000000000000000000");
-    assert!(r.is_err());
-    std::mem::forget(r);
+fn parse_number__octal_boundaries() {
+    parses!("0777777777777777777777", 8, i64::MAX);
+    parses!("0", 8, 0);
+    parses!("0123", 8, 83);
+    parses!("040000000000", 8, 4294967296i64);
+    parses!("037777777777", 8, 4294967295i64);
+    out_of_range!("01000000000000000000000", 8);
+    out_of_range!("0779", 8);
+    out_of_range!("08", 8);
 }
 
-/// K6: `a..b` is accepted <=> a <= b and denotes a..=b; a single value a
-/// denotes a..=a.  One decimal digit (optionally negative) per bound, every
-/// combination; exact consumption.
+// ---------------------------------------------------------------------------
+// K5d: i64::lex on concrete literals that exercise radix selection and maximal
+// munch (short ones: the unwind bound must stay small, see the module comment).
+
+macro_rules! lexes {
+    ($s:literal, $v:expr, $n:literal) => {{
+        let s: &'static str = $s;
+        let r = i64::lex(s);
+        assert!(matches!(&r, Ok((v, rest)) if *v == $v && is_suffix_at(s, rest, $n)), "value and exact consumption");
+        kani::cover!(r.is_ok(), "accepted");
+        std::mem::forget(r);
+    }};
+}
+
+macro_rules! rejects {
+    ($s:literal) => {{
+        let r = i64::lex($s);
+        assert!(r.is_err(), "malformed literal rejected");
+        kani::cover!(r.is_err(), "rejected");
+        std::mem::forget(r);
+    }};
+}
+
 #[kani::proof]
-#[kani::unwind(8)]
+#[kani::unwind(7)]
+#[kani::stub(crate::lex::expect, crate::lex::verif_kani::common::expect__contract)]
+fn i64_lex__octal_does_not_split() {
+    rejects!("0779");
+    rejects!("08 ");
+    lexes!("0777}", 511, 4);
+}
+
+#[kani::proof]
+#[kani::unwind(7)]
+#[kani::stub(crate::lex::expect, crate::lex::verif_kani::common::expect__contract)]
+fn i64_lex__hex_and_negative_forms() {
+    lexes!("0x1f..", 31, 4);
+    lexes!("-12-", -12, 3);
+    // a sign is only part of a decimal literal: `-0x1` is `-0` followed by `x1`
+    lexes!("-0x1", 0, 2);
+    rejects!("0x");
+    rejects!("-");
+}
+
+// ---------------------------------------------------------------------------
+// K6: IntRange::lex against the CONTRACT of i64::lex (reference lexer) and of expect:
+// `a..b` is accepted <=> a <= b and denotes a..=b; a single value a denotes a..=a;
+// exact consumption.  Bounds: one decimal digit, optionally negative, every combination.
+
+#[kani::proof]
+#[kani::unwind(5)]
+#[kani::stub(crate::lex::expect, crate::lex::verif_kani::common::expect__contract)]
+#[kani::stub(<i64 as crate::lex::Lex>::lex, crate::lex::verif_kani::common::i64_lex__contract)]
 fn int_range_lex__ordered_bounds() {
     let a: u8 = kani::any();
     let b: u8 = kani::any();
@@ -117,43 +256,78 @@ fn int_range_lex__ordered_bounds() {
     buf[n] = b' ';
     n += 1;
     let input = ascii_str(&buf, n);
+    // leading-0 means octal: single digits denote themselves in both radices
     let va = if na { -(a as i64) } else { a as i64 };
     let vb = if nb { -(b as i64) } else { b as i64 };
-    match IntRange::lex(input) {
+    let r = IntRange::lex(input);
+    match &r {
         Ok((r, rest)) => {
             assert!(va <= vb, "reversed ranges are rejected");
             let r: std::ops::RangeInclusive<i64> = r.into();
             assert!(*r.start() == va && *r.end() == vb, "a..b denotes a..=b");
-            assert!(is_suffix_at(input, rest, lit));
-            kani::cover!(va == vb);
+            assert!(is_suffix_at(input, rest, lit), "exactly the literal is consumed");
+            kani::cover!(va == vb, "a..a is accepted");
+            kani::cover!(va < vb, "ordered");
         }
-        Err(e) => {
-            assert!(va > vb, "ordered ranges are accepted");
-            assert!(matches!(e.0, LexErrorKind::IncompatibleRangeBounds));
-            std::mem::forget(e);
+        Err((kind, _)) => {
+            assert!(va > vb, "ordered ranges (including a..a) are accepted");
+            assert!(matches!(kind, LexErrorKind::IncompatibleRangeBounds));
+            kani::cover!(true, "reversed range rejected");
         }
     }
+    std::mem::forget(r);
 }
 
-/// single value => a..=a
+/// single value => a..=a ; a single dot is not part of the literal
 #[kani::proof]
-#[kani::unwind(8)]
+#[kani::unwind(5)]
+#[kani::stub(crate::lex::expect, crate::lex::verif_kani::common::expect__contract)]
+#[kani::stub(<i64 as crate::lex::Lex>::lex, crate::lex::verif_kani::common::i64_lex__contract)]
 fn int_range_lex__single_value() {
     let a: u8 = kani::any();
     kani::assume(a <= 9);
+    let neg: bool = kani::any();
     let dot: bool = kani::any();
-    let buf = [b'0' + a.max(1), if dot { b'.' } else { b'}' }, b'x'];
-    let input = ascii_str(&buf, 3);
-    match IntRange::lex(input) {
+    let mut buf = [0u8; 4];
+    let mut n = 0;
+    if neg {
+        buf[n] = b'-';
+        n += 1;
+    }
+    buf[n] = b'0' + a;
+    n += 1;
+    let lit = n;
+    buf[n] = if dot { b'.' } else { b'}' };
+    buf[n + 1] = b'x';
+    n += 2;
+    let input = ascii_str(&buf, n);
+    let v = if neg { -(a as i64) } else { a as i64 };
+    let r = IntRange::lex(input);
+    match &r {
         Ok((r, rest)) => {
             let r: std::ops::RangeInclusive<i64> = r.into();
-            let v = a.max(1) as i64;
             assert!(*r.start() == v && *r.end() == v, "a single value a denotes a..=a");
-            assert!(is_suffix_at(input, rest, 1), "a single dot is not part of the literal");
+            assert!(is_suffix_at(input, rest, lit), "a single dot is not part of the literal");
+            kani::cover!(dot, "followed by a single dot");
         }
-        Err(e) => {
-            std::mem::forget(e);
-            assert!(false);
+        Err(_) => {
+            assert!(false, "a single value is a range");
         }
     }
+    std::mem::forget(r);
+}
+
+/// `a..` without an upper bound, and a malformed upper bound, are rejected.
+#[kani::proof]
+#[kani::unwind(6)]
+#[kani::stub(crate::lex::expect, crate::lex::verif_kani::common::expect__contract)]
+#[kani::stub(<i64 as crate::lex::Lex>::lex, crate::lex::verif_kani::common::i64_lex__contract)]
+fn int_range_lex__missing_upper_bound_rejected() {
+    let r = IntRange::lex("1..");
+    assert!(r.is_err());
+    std::mem::forget(r);
+    let r = IntRange::lex("1..}");
+    assert!(r.is_err());
+    kani::cover!(r.is_err(), "rejected");
+    std::mem::forget(r);
 }
